@@ -1,6 +1,6 @@
 """check configuration for C07 (loaded by lib/zvprops.py)"""
 
-PROP = {'gen_tables': ['SliceOwn'],
+PROP = {'gen_tables': ['SliceOwn', 'TransDerive'],
  'rule': 'ops: derivation programs over a root core (8 fixed compositions — io, observer, tee, sampler, hooks, IncreaseLevel, lazy, With — and '
          'random C05 trees): steps With / WithLazy / WithOptions(Fields) / Named / Sugar / Desugar on plain and sugared loggers, a zapslog handler '
          'branch (WithAttrs / WithGroup / Handle), log calls at any point (derive-after-use, sibling interleavings), mutations of mutable '
@@ -13,7 +13,7 @@ PROP = {'gen_tables': ['SliceOwn'],
                  'io (JSON) leaves, whose bytes are fixed when the field is marshaled',
                  'the slog branch uses plain int attributes and non-empty group names only (group / empty-attribute rules are C18)',
                  'Go slices and buffers: modelled as headers over a heap of arrays (M11); sync.Pool reuse of encoder buffers is C08'],
- 'technique': 'Lean 4: induction over derivation paths (path_fields, lazy = with up to evaluation time) and a heap model of Go slices for the aliasing refinements; tie: correspondence on derivation programs with every node re-logged',
+ 'technique': 'Lean 4: induction over derivation paths (path_fields, lazy = with up to evaluation time) and a heap model of Go slices for the aliasing refinements; tie: correspondence on derivation programs with every node re-logged + translated source (Logger.clone/Named/With/WithOptions/WithLazy, the With methods of ioCore, multiCore, sampler, hooked, levelFilterCore, contextObserver, and lazyWithCore proved to be the push-down clauses / first-use-once evaluation of the model)',
  'level_text': 'path_fields holds for every derivation path over every root core of the model; the capped-append and clone-buffer refinements are proved with witnesses that the uncapped variants alias.',
  'level_note': 'path_fields is stated per snapshot of the once-cells (monotonicity proved separately); the slog branch covers int attributes and non-empty groups (group rules are C18).',
 }
